@@ -102,6 +102,10 @@ def fixed_family():
     fam[-1]["variants"][1]["alt_split"] = 2
     fam[-1]["variants"][1]["attrs_reversed"] = True
     fam[-1]["variants"][3]["attrs_reversed"] = True
+    # the width follows the largest *discriminant*: an alternative code above it must neither widen the codec nor be rejected
+    E("W26", [0, 1, 2, 3], alts={0: [7]}, fmts=["bin"])                   # no #[bits]: 2 bits although an alt is 0b111
+    E("W27", [0, 1, 2, 3], bits=2, alts={3: [6, 5]}, fmts=["bin"])        # declared minimal width with wider alts
+    E("W28", [1, 0], alts={1: [2, 255]}, fmts=["dec"])                    # 1 bit, alts up to 255
     return fam
 
 
